@@ -325,12 +325,28 @@ Section RefineHandles.
       its buffer (C04 through the public API) *)
   Theorem refine_write (s : mstate) hs h dest buf pos data :
     hs !! h = Some (HMemWriter 0 dest buf pos) -> data <> [] ->
+    (pos + Z.of_nat (length data) <= i64_max)%Z ->
     handle_op h (HWrite data) (mstore s hs lg ft) =
     (mstore s (<[h := HMemWriter 0 dest (fst (cursor_write buf pos data)) (snd (cursor_write buf pos data))]> hs) lg ft,
      Ok (N.of_nat (length data))).
   Proof.
-    intros Hh Hd. rewrite handle_op_no_io by reflexivity. unfold handle_op0. cbn [st_handles mstore]. rewrite Hh. cbn [put].
-    destruct data as [|b data]; [congruence|]. destruct (cursor_write buf pos (b :: data)) as [buf' pos']. reflexivity.
+    intros Hh Hd Hfit. rewrite handle_op_no_io by reflexivity. unfold handle_op0. cbn [st_handles mstore]. rewrite Hh.
+    destruct data as [|b data]; [congruence|]. unfold write_too_large.
+    rewrite (proj2 (Z.ltb_ge _ _)) by exact Hfit. cbn [put].
+    destruct (cursor_write buf pos (b :: data)) as [buf' pos']. reflexivity.
+  Qed.
+
+  (** ... and a non-empty write that would end beyond [isize::MAX] bytes (a seek far past the end came first) is refused
+      with an I/O error: nothing is written, the handle and the filesystem are as before (repair 14b1c2a; the unrepaired
+      handle panicked here) *)
+  Theorem refine_write_too_large (s : mstate) hs h dest buf pos data :
+    hs !! h = Some (HMemWriter 0 dest buf pos) -> data <> [] ->
+    (i64_max < pos + Z.of_nat (length data))%Z ->
+    handle_op h (HWrite data) (mstore s hs lg ft) = (mstore s hs lg ft, fail EIo).
+  Proof.
+    intros Hh Hd Hbig. rewrite handle_op_no_io by reflexivity. unfold handle_op0. cbn [st_handles mstore]. rewrite Hh.
+    destruct data as [|b data]; [congruence|]. unfold write_too_large.
+    rewrite (proj2 (Z.ltb_lt _ _)) by exact Hbig. reflexivity.
   Qed.
 
   Theorem refine_drop (s : mstate) hs h dest buf pos : wf s ->
